@@ -52,7 +52,7 @@ var space = engine.Space{
 	engine.D("scopes", "openid", "", "openid profile", "profile", "openid profile email", "openid imp:u2", "openid custom x"),
 	engine.D("policy", "default", "nodefault", "veto", "drop-profile", "imp", "imp-drop", "def-refresh", "def-id", "def-jwt"),
 	engine.D("audres", "none", "aud-api", "aud-api-other", "res", "aud-res"),
-	engine.D("client", "webjwt", "web", "wrong-secret", "no-grant", "unknown", "none", "body-ok", "body-wrong"),
+	engine.D("client", "webjwt", "web", "wrong-secret", "no-grant", "unknown", "none", "body-ok", "body-wrong", "bad-escape"),
 	engine.D("caps", "all", "no-tv", "no-te"),
 	engine.D("router", rig.Routers...),
 }
@@ -130,7 +130,7 @@ func (w *world) decode(v engine.Vec) *input {
 		in.clientID = "norefresh"
 	case "unknown":
 		in.clientID = "ghost"
-	case "body-ok", "body-wrong":
+	case "body-ok", "body-wrong", "bad-escape":
 		in.clientID = "web"
 	}
 	in.router = slices.Index(rig.Routers, g("router"))
@@ -177,7 +177,7 @@ func judgeToken(tk *tok, typ string, tv bool) (int, string) {
 		// A revoked JWT access token is still a provider-signed, unexpired JWT. Presented as
 		// id_token / jwt it is judged like any JWT under another JWT-based type name (below).
 		if tk.jwt && jwtType && typ != tk.typ {
-			return either, "jwt-kind-confusion"
+			return either, "revoked-jwt-under-other-type"
 		}
 		return mustRefuse, "dead"
 	case "forged-sub":
@@ -216,7 +216,7 @@ func judge(in *input) *expectation {
 	var soft []string
 	// "an authenticated client"
 	switch in.client {
-	case "wrong-secret", "unknown", "none", "body-wrong":
+	case "wrong-secret", "unknown", "none", "body-wrong", "bad-escape":
 		return refuse("client-unauthenticated")
 	case "body-ok":
 		soft = append(soft, "client-secret-in-body") // DESIGN 1.6 (C05): channel of a correct secret
@@ -392,6 +392,8 @@ func (k *worker) exec(in *input, exp *expectation) engine.Result {
 	case "body-wrong":
 		form.Set("client_id", "web")
 		form.Set("client_secret", "secret-webjwt")
+	case "bad-escape":
+		auth = rig.BasicRaw("web%zz", secretOf("web")) // Basic credentials that are not form-urlencoded
 	}
 	resp := r.Token(in.router, form, auth)
 
@@ -592,7 +594,7 @@ func (k *worker) probe(r *rig.Rig, in *input, exp *expectation, body map[string]
 
 func TestCheck(t *testing.T) {
 	c := engine.Start(t, "C15")
-	c.SetRule("E1: full products {subject kind x declared type x requested type x router}, {actor kind x actor type x requested type x router}, {requested type x storage policy x scopes x router}, {client x subject kind x router}, each crossed with every <=k deviations of all other dimensions (subject, declared, actor, actor type, requested, scopes, policy, audience/resource, client, storage capabilities, router); every vector = one real token-exchange POST on a clone of the state prepared by real flows, in a synctest bubble; 200 answers are probed with userinfo / introspection / refresh / rp+op ID-token verification; distinct = (oracle rule, observed outcome class)")
+	c.SetRule("E1: full products {subject kind x declared type x requested type x router}, {actor kind x actor type x requested type x router}, {requested type x storage policy x scopes x router}, {client x subject kind x router}, each crossed with every <=k deviations (quick 1, thorough 2) of all other dimensions, plus {requested type x router} crossed with every <=k+1 deviations of all other dimensions (subject, declared, actor, actor type, requested, scopes, policy, audience/resource, client, storage capabilities, router); every vector = one real token-exchange POST on a clone of the state prepared by real flows, in a synctest bubble; 200 answers are probed with userinfo / introspection / refresh / rp+op ID-token verification; distinct = (oracle rule, observed outcome class)")
 	c.Assume("refstore is the trusted storage (liveness of exchanged token ids in ValidateTokenExchangeRequest; ID tokens are not tracked)",
 		"Either: a provider-signed JWT presented under another JWT-based type name (JWT access token as id_token/jwt, ID token as access_token/jwt) - the library's JWTs carry no type marker and refstore does not look into id_token subjects",
 		"Either: provider-signed JWT naming a live token id with another subject (refstore does not pair id and subject)",
@@ -605,6 +607,7 @@ func TestCheck(t *testing.T) {
 		return
 	}
 	k := engine.Pick(c, 1, 2)
+	kAll := engine.Pick(c, 2, 3)
 	c.RunE1(engine.E1{
 		Part:  "exchange",
 		Space: space,
@@ -613,8 +616,9 @@ func TestCheck(t *testing.T) {
 			{"actor", "atype", "requested", "router"},
 			{"requested", "policy", "scopes", "router"},
 			{"client", "subj", "router"},
+			{"requested", "router"}, // dev(kAll) over ALL other dimensions: every pair (thorough: triple) of deviations
 		},
-		Ks: []int{k, k, k, k},
+		Ks: []int{k, k, k, k, kAll},
 		NewWorker: func(int) func(engine.Vec) engine.Result {
 			wk := newWorker(t, w)
 			return wk.run
